@@ -220,6 +220,31 @@ theorem seq_mergeAux (h : σ.Lawful) : ∀ (ls run : List (Lat E)), skipL σ run
         rw [seq_mergeAux h ls [] (by simp [skipL])]
         simp only [seq, seq_closeRun σ c h run hr]
 
+/-- invariant: the beams sent into the unmerged items of the tail are those of element-by-element tracking from
+`seq run tr` -/
+theorem mergeArr_spec (h : σ.Lawful) : ∀ (ls run : List (Lat E)), skipL σ run = true → ∀ tr,
+    mergeArr σ c keep ls run tr = arrSpec σ keep ls (seq σ run tr)
+  | [], _, _, _ => by simp [mergeArr, arrSpec]
+  | l :: ls, run, hr, tr => by
+      simp only [mergeArr, arrSpec]
+      by_cases hl : (skip σ l && !keep l) = true
+      · simp only [hl, if_true, List.nil_append]
+        have hsk : skip σ l = true := by
+          simp only [Bool.and_eq_true] at hl; exact hl.1
+        have hr' : skipL σ (run ++ [l]) = true := by simp [skipL_append, hr, skipL, hsk]
+        rw [mergeArr_spec h ls (run ++ [l]) hr', seq_append]; simp [seq]
+      · simp only [hl, Bool.false_eq_true, if_false, List.singleton_append]
+        rw [seq_closeRun σ c h run hr, mergeArr_spec h ls [] (by simp [skipL])]
+        simp [seq]
+
+/-- **C11 / C20 for the optimised lattice**: while `transfer_maps_merged` runs, every item it leaves unmerged — among them the
+active diagnostics — receives exactly the beam that element-by-element tracking of the original lattice sends into it -/
+theorem arrivals_spec (h : σ.Lawful) (ls : List (Lat E)) (b : S) :
+    arrivals σ c keep ls b = arrSpec σ keep ls b := by
+  unfold arrivals
+  rw [mergeArr_spec σ c keep h ls [] (by simp [skipL])]
+  simp [seq]
+
 /-- **C08 core**: the merged segment tracks the given beam exactly like the original. -/
 theorem track_merged (h : σ.Lawful) (ls : List (Lat E)) (b : S) :
     track σ (.seg (merged σ c keep ls b)) b = track σ (.seg ls) b := by
